@@ -1550,6 +1550,9 @@ class Message(ABC):
                     or self._include_default_value_for_oneof(
                         field_name=field_name, meta=meta
                     )
+                    # as in dump(): content set through nested attribute access
+                    # (m.a.b.x = 1) does not mark the intermediate message
+                    or value != self._get_field_default(field_name)
                 ):
                     output[cased_name] = value.to_dict(casing, include_default_values)
             elif meta.proto_type == TYPE_MAP:
@@ -1843,6 +1846,7 @@ class Message(ABC):
                     or self._include_default_value_for_oneof(
                         field_name=field_name, meta=meta
                     )
+                    or value != self._get_field_default(field_name)
                 ):
                     output[cased_name] = value.to_pydict(casing, include_default_values)
             elif meta.proto_type == TYPE_MAP:
